@@ -11,8 +11,10 @@
       handler.handleClose     l.772-785   [hcpc]
       handler.handleMessage   l.787-823   one thread per message [mpc] (C02 abstracted to
                                           start -> handler returns -> publish returns -> settle -> wg.Done)
-      message/decorator.go    l.44-66     the context decorator's pump goroutine [ppc] and
-                                          its Close (inner Close, then subscribeWg.Wait)
+      message/decorator.go                the context decorator's pump goroutine [ppc] (after the D8
+                                          repair: select { out <- msg | <-ctx.Done() | <-t.closing },
+                                          the two give-up branches drop the held message) and its
+                                          Close (inner Close, close(t.closing), subscribeWg.Wait)
     Environment: the subscriber emitting messages / closing its channel (after Close() was
     called on it, or - when it honours the Subscribe context - after that context was
     cancelled), handlers finishing (any time, or never), callers of Close (any number, any
@@ -58,6 +60,7 @@ Inductive hcpc :=
 | HCSelect                (* select { <-routersCloseCh | <-ctx.Done() } *)
 | HCCheck                 (* fix6 only: ctx.Done taken, polling routersCloseCh *)
 | HCSubClose              (* before h.subscriber.Close() (decorator: inner Close ...) *)
+| HCDecSignal             (* ... inner Close returned, before close(t.closing) (D8 repair) ... *)
 | HCWaitPump              (* ... then subscribeWg.Wait() *)
 | HCStop                  (* before h.stopFn() *)
 | HCDone.
@@ -66,7 +69,7 @@ Inductive hcpc :=
 Inductive ppc :=
 | PNone
 | PRecv                   (* at [for msg := range in] *)
-| PSend (m : mid)         (* at [out <- msg] *)
+| PSend (m : mid)         (* at [select { out <- msg | <-ctx.Done() | <-t.closing }] *)
 | PWgDone                 (* in closed: close(out) done, before subscribeWg.Done() *)
 | PDone.
 
@@ -80,7 +83,8 @@ Inductive mpc :=
 | MPublishing             (* handler returned, publishing *)
 | MSettling               (* before Ack/Nack *)
 | MSettled                (* settled, before the deferred runningHandlersWg.Done() *)
-| MDone.
+| MDone
+| MDropped.               (* given up by the decorator's pump (D8 repair): never handled, never settled *)
 
 Inductive cpc :=
 | CNone
@@ -121,6 +125,7 @@ Record state := ST {
   pp : hid -> ppc;
   sub_open : hid -> bool;          (* the subscriber's channel is not closed *)
   sub_closing : hid -> bool;       (* Close() has been called on the subscriber *)
+  dec_closing : hid -> bool;       (* the decorator's closing channel is closed *)
   sub_closes : hid -> nat;
   pub_closes : hid -> nat;
   out_closed : hid -> bool;        (* the decorator's out channel (= h.messagesCh) is closed *)
@@ -135,7 +140,7 @@ Record state := ST {
 
 #[export] Instance eta_state : Settable _ := settable! ST
   <nh; honour; fix5; fix6; fix12; closedLock; closed; closingCh; closedCh; close_res; handlersWg;
-   runningWg; runningLock; w1; w2; run; ctx_done; early_cancel; lp; hc; pp; sub_open; sub_closing;
+   runningWg; runningLock; w1; w2; run; ctx_done; early_cancel; lp; hc; pp; sub_open; sub_closing; dec_closing;
    sub_closes; pub_closes; out_closed; hstop; mp; nextm; cp; panicked>.
 
 Inductive label :=
@@ -155,6 +160,8 @@ Inductive label :=
 | LLoop (h : hid)            (* next step of the handler loop *)
 | LDeliver (h : hid)         (* pump -> loop hand-off on h.messagesCh *)
 | LPump (h : hid)            (* next step of the pump (other than the hand-offs) *)
+| LPumpDropCtx (h : hid)     (* pump select: <-ctx.Done(): the held message is given up *)
+| LPumpDropClosing (h : hid) (* pump select: <-t.closing: the held message is given up *)
 | LHcClosing (h : hid)       (* handleClose select: <-routersCloseCh *)
 | LHcCtx (h : hid)           (* handleClose select: <-ctx.Done() *)
 | LHc (h : hid)              (* next step of handleClose *)
@@ -171,7 +178,7 @@ Definition init (n : nat) (hon : hid -> bool) (f5 f6 f12 : bool) : state :=
      (fun h => if live h then LRecv else LNone)
      (fun h => if live h then HCSelect else HCNone)
      (fun h => if live h then PRecv else PNone)
-     live (fun _ => false) (fun _ => 0) (fun _ => 0) (fun _ => false) (fun _ => false)
+     live (fun _ => false) (fun _ => false) (fun _ => 0) (fun _ => 0) (fun _ => false) (fun _ => false)
      (fun _ => MNone) 0 (fun _ => CNone) false.
 
 (** the handler's subscription context is done *)
@@ -301,6 +308,22 @@ Definition step (s : state) (l : label) : option state :=
       | PWgDone => Some (s <| pp := upd (pp s) h PDone |>)
       | _ => None
       end
+  | LPumpDropCtx h =>
+      match pp s h with
+      | PSend m =>
+          if hctx_done s h
+          then Some (s <| pp := upd (pp s) h PRecv |> <| mp := upd (mp s) m MDropped |>)
+          else None
+      | _ => None
+      end
+  | LPumpDropClosing h =>
+      match pp s h with
+      | PSend m =>
+          if dec_closing s h
+          then Some (s <| pp := upd (pp s) h PRecv |> <| mp := upd (mp s) m MDropped |>)
+          else None
+      | _ => None
+      end
   | LHcClosing h =>
       match hc s h with
       | HCSelect => if closingCh s then Some (s <| hc := upd (hc s) h HCSubClose |>) else None
@@ -318,8 +341,10 @@ Definition step (s : state) (l : label) : option state :=
       match hc s h with
       | HCCheck => Some (s <| hc := upd (hc s) h (if closingCh s then HCSubClose else HCStop) |>)
       | HCSubClose =>
-          Some (s <| hc := upd (hc s) h HCWaitPump |> <| sub_closing := upd (sub_closing s) h true |>
+          Some (s <| hc := upd (hc s) h HCDecSignal |> <| sub_closing := upd (sub_closing s) h true |>
                   <| sub_closes := upd (sub_closes s) h (S (sub_closes s h)) |>)
+      | HCDecSignal =>
+          Some (s <| hc := upd (hc s) h HCWaitPump |> <| dec_closing := upd (dec_closing s) h true |>)
       | HCWaitPump =>
           match pp s h with
           | PDone => Some (s <| hc := upd (hc s) h HCStop |>)
@@ -363,7 +388,7 @@ Definition returned (s : state) (c : cid) (r : res) : bool :=
   match cp s c with CRet r' => res_eqb r r' | _ => false end.
 
 (** a handler invocation exists that has been dispatched and has not finished *)
-Definition msg_idle (p : mpc) : bool := match p with MNone | MDone => true | _ => false end.
+Definition msg_idle (p : mpc) : bool := match p with MNone | MDone | MDropped => true | _ => false end.
 Definition loop_over (p : lpc) : bool := match p with LNone | LEnd => true | _ => false end.
 
 (** executable quiescence test over the allocated messages and handlers *)
@@ -377,7 +402,7 @@ Definition quiescent_b (s : state) : bool :=
 Definition sys_labels (s : state) (ncl : nat) : list label :=
   [LW1; LW2; LRun] ++
   flat_map (fun c => [LClose c; LWaitDone c]) (seq 0 ncl) ++
-  flat_map (fun h => [LLoop h; LDeliver h; LPump h; LHcClosing h; LHcCtx h; LHc h; LChanClose h]) (seq 0 (nh s)) ++
+  flat_map (fun h => [LLoop h; LDeliver h; LPump h; LPumpDropCtx h; LPumpDropClosing h; LHcClosing h; LHcCtx h; LHc h; LChanClose h]) (seq 0 (nh s)) ++
   map LMsg (seq 0 (nextm s)).
 
 Definition enabled (s : state) (l : label) : bool :=
